@@ -93,6 +93,19 @@ func (s *scen) createSub(e *srvx.Episode, kind string, ms float64, keepalive uin
 	}
 	r := e.Do(kind, "createsub "+cls, srvx.CreateSubReq(ms, 100000, keepalive), fmt.Sprintf("interval=%v keepalive=%d", ms, keepalive))
 	e.PostWait = 0
+	if cr, ok := r.Resp.(*ua.CreateSubscriptionResponse); ok {
+		rev := cr.RevisedPublishingInterval
+		rdur, rcls := goInterval(rev)
+		// the interval the server says it uses must be one the ticker accepts
+		x := extra{Line: fmt.Sprintf("interval %d", rdur), Impl: rcls, Case: fmt.Sprintf("revised interval %v ms (requested %v)", rev, ms)}
+		if rcls == "subms" && !e.Dead {
+			x.Bad, x.Detail = true, fmt.Sprintf("CreateSubscription answered RevisedPublishingInterval=%v for a request of %v: not a usable interval", rev, ms)
+		}
+		s.ex = append(s.ex, x)
+		if ms == math.Trunc(ms) && math.Abs(ms) < 1e15 {
+			s.ex = append(s.ex, extra{Line: fmt.Sprintf("revise %d", int64(ms)), Impl: fmt.Sprintf("%d", int64(rev)), Case: fmt.Sprintf("revise %v", ms)})
+		}
+	}
 	return r
 }
 
@@ -671,12 +684,6 @@ func main() {
 		r.Notes = append(r.Notes, "scenarios that took more than 10 s: "+strings.Join(slow, ", "))
 	}
 	var want []string
-	for _, sg := range []string{"findservers-no-endpoints", "createsession-nonrsa-certificate",
-		"createsubscription-nonpositive-interval", "createsubscription-nil-session-tick", "deletesubscriptions-nil-session",
-		"createmonitoreditems-nil-session", "setmonitoringmode-nil-session",
-		"deletemonitoreditems-nil-session", "browse-datatype-type-assertion"} {
-		want = append(want, "crash:C29."+sg)
-	}
 	want = append(want, "canary-ok", "out:ok", "out:fault", "extra:hang:blocked", "extra:signedchunk:noresponse", "extra:browsecls:plain")
 	sort.Strings(want)
 	for _, b := range want {
